@@ -9,10 +9,13 @@ import (
 	"strings"
 
 	"github.com/llir/llvm/ir"
+	"github.com/llir/llvm/ir/enum"
+	"github.com/llir/llvm/ir/metadata"
 	"github.com/llir/llvm/verifhook/export"
 
 	"verif/internal/corpus"
 	"verif/internal/fw"
+	"verif/internal/llvmref"
 )
 
 func init() {
@@ -164,7 +167,66 @@ func genC20(ctx *fw.Ctx) []fw.Case {
 		b := b
 		cases = append(cases, fw.Case{ID: fmt.Sprintf("entity-order/%d", b), Run: func(r *fw.Rec) { c20EntityOrder(r, b) }})
 	}
+	cases = append(cases, fw.Case{ID: "api-edit-order", Run: c20APIEditOrder})
 	return cases
+}
+
+// c20APIEditOrder edits parsed modules through the API the way a client adds
+// definitions (append at the end: a metadata definition without ID, which
+// receives the smallest unused number, an attribute group with a small ID, a
+// type definition, a comdat) and prints: the printed module must still list
+// every section in the stated order.
+func c20APIEditOrder(r *fw.Rec) {
+	rng := r.Ctx().Rand("c20apiedit")
+	for round := 0; round < r.Ctx().Pick(40, 600); round++ {
+		ids := rng.Perm(12)[:2+rng.Intn(4)]
+		sort.Ints(ids)
+		var sb strings.Builder
+		sb.WriteString("declare void @f() #" + strconv.Itoa(ids[len(ids)-1]+3) + "\n")
+		sb.WriteString("attributes #" + strconv.Itoa(ids[len(ids)-1]+3) + " = { nounwind }\n")
+		sb.WriteString("!named = !{")
+		for i, id := range ids {
+			if i > 0 {
+				sb.WriteString(", ")
+			}
+			fmt.Fprintf(&sb, "!%d", id+1)
+		}
+		sb.WriteString("}\n")
+		for _, id := range ids {
+			fmt.Fprintf(&sb, "!%d = !{i32 %d}\n", id+1, id)
+		}
+		x := sb.String()
+		m, perr, pmsg := parseGuard("c20-api-edit", x)
+		if perr != nil || pmsg != "" {
+			r.Inconclusive("cannot parse the base module of the api-edit case")
+			continue
+		}
+		nNew := 1 + rng.Intn(3)
+		for k := 0; k < nNew; k++ {
+			def := &metadata.Tuple{MetadataID: -1, Fields: []metadata.Field{&metadata.String{Value: fmt.Sprintf("new%d", k)}}}
+			m.MetadataDefs = append(m.MetadataDefs, def)
+			m.NamedMetadataDefs["named"].Nodes = append(m.NamedMetadataDefs["named"].Nodes, def)
+		}
+		ag := &ir.AttrGroupDef{ID: int64(rng.Intn(ids[len(ids)-1] + 3)), FuncAttrs: []ir.FuncAttribute{enum.FuncAttrNoReturn}}
+		m.AttrGroupDefs = append(m.AttrGroupDefs, ag)
+		m.Funcs[0].FuncAttrs = append(m.Funcs[0].FuncAttrs, ag)
+		r.Eval(1)
+		y, pp := printGuard(m)
+		if pp != "" {
+			r.Violate(fw.Violation{Key: "api-edit/print-panic", Input: x, What: "printing an edited module panics: " + firstLine(pp)})
+			return
+		}
+		if ok, msg, err := llvmref.Accepts(y); err == nil && !ok {
+			r.Violate(fw.Violation{Key: "api-edit/llvm-rejects", Input: x, What: "LLVM rejects the printed module after definitions were appended through the API: " + firstLine(lastDiag(msg)), Observed: y})
+			return
+		}
+		if key, what := c20PrintedOrder(y); key != "" {
+			r.Violate(fw.Violation{Key: "api-edit/" + key, Input: x, What: "after appending definitions through the API (" + strconv.Itoa(nNew) + " metadata definitions without ID, attribute group #" + strconv.FormatInt(ag.ID, 10) + "): " + what, Observed: y})
+			return
+		}
+		r.Nontrivial(y)
+		r.Tally("api_edit", "sections-in-order")
+	}
 }
 
 func c20Pairs(r *fw.Rec, blk, blocks int) {
